@@ -429,6 +429,8 @@ def scan_helper(ctx, key, name, want_flag, mutating):
                     idxv = rem[0].data['args'][0] if rem[0].data['args'] else None
                     eqcall = eqbr[-1].data['val']
                     ent = eqcall[3][0] if eqcall[0] == 'call' else None
+                    if ent is not None and ent[0] == 'ref' and len(ent) > 2 and ent[1][0] == 'local' and ent[2] is not None:
+                        ent = ent[2]   # `x == sig` on two references: `&&A` one level up (see sem.project_raw)
                     item = None
                     if ent is not None and ent[0] == 'field' and ent[2] == '1':
                         item = ent[1]
